@@ -37,6 +37,8 @@ type facts struct {
 	Generator   string    `json:"generator"`
 	Authors     []string  `json:"authors"`
 	Keywords    []string  `json:"keywords"` // expected list after splitting/stripping/dedup
+	Created     string    `json:"created"`  // expected SetDateCreation argument (RFC 3339, UTC); zero time when absent
+	Modified    string    `json:"modified"`
 	Headings    []heading `json:"headings"` // displayed headings in document order
 	IDs         []string  `json:"ids"`      // ids of displayed elements, document order, with duplicates
 	LinkTargets []string  `json:"link_targets"`
@@ -58,9 +60,9 @@ func counts(tier string) (docs, structs int) {
 
 func init() {
 	fw.Register(&fw.Prop{
-		ID: "C14",
+		ID:   "C14",
 		Rule: "cases: (a) hostile generated documents (same grammar as C01: backgrounds, gradients, images, borders, radii, outlines, opacity, overflow, transforms, inline SVG, lists, tables) at zoom 0.5/1/2.5; (b) structured documents with ids (duplicates on purpose), internal links to present / missing / duplicate ids across pages, headings with bookmark-level sequences, metadata. Every backend call is checked online; links/anchors/bookmarks/metadata offline against the laid-out pages and the generator's facts. Non-trivial: the render produced >= 1 page and >= 30 backend events (a) / >= 1 anchor or bookmark (b); distinct = distinct input.",
-		N:     func(tier string) int { d, s := counts(tier); return d + s },
+		N:    func(tier string) int { d, s := counts(tier); return d + s },
 		Gen: func(r *rand.Rand, i int, tier string) any {
 			d, _ := counts(tier)
 			if i < d {
@@ -78,7 +80,7 @@ func init() {
 			return 1500
 		},
 		CounterFloors: func(tier string) map[string]int64 {
-			return map[string]int64{"events": 200000, "ev_Paint": 5000, "ev_DrawText": 5000, "ev_Clip": 500, "ev_Transform": 2000, "anchors_checked": 1000, "internal_links_checked": 500, "bookmarks_checked": 1000, "dangling_links_dropped": 100, "metadata_docs": 500, "multi_page_struct": 200}
+			return map[string]int64{"events": 200000, "ev_Paint": 5000, "ev_DrawText": 5000, "ev_Clip": 500, "ev_Transform": 2000, "anchors_checked": 1000, "internal_links_checked": 500, "bookmarks_checked": 1000, "dangling_links_dropped": 100, "metadata_docs": 500, "multi_page_struct": 200, "dates_checked": 500, "dates_differ": 200}
 		},
 		Assumptions: []string{
 			"the call-sequence rules are those written in backend/graphics.go's method comments (current point before LineTo/CubicTo/ClosePath, Paint/Clip act on a non-empty current path, fonts registered with AddFont on the canvas before DrawText)",
@@ -146,9 +148,17 @@ func check(raw json.RawMessage) fw.Result {
 		r   *wr.Rendered
 		err error
 	)
-	if sig, _, _ := fw.Protect(func() {
-		r, err = wr.Render(wr.Opts{HTML: d.HTML, UserCSS: d.UserCSS, Hints: d.Hints, Engine: d.Engine, Zoom: d.Zoom, Files: d.Files})
+	var phase string
+	if sig, msg, stack := fw.Protect(func() {
+		r, err = wr.Render(wr.Opts{HTML: d.HTML, UserCSS: d.UserCSS, Hints: d.Hints, Engine: d.Engine, Zoom: d.Zoom, Files: d.Files, Phase: &phase})
 	}); sig != "" {
+		if phase == "write" {
+			// the layout succeeded and Document.Write itself gave up half way: the backend is left with a
+			// truncated call sequence (pages without the document-level calls, open stacks)
+			res.Fail("write-"+sig, "Document.Write panicked after the layout succeeded, leaving the backend with a truncated call sequence: "+msg)
+			res.Stack = stack
+			return res
+		}
 		// a render that panics produced no drawing to judge: crashes are C01's verdicts (known crash
 		// sites are listed there); here the case is outside the domain, and counted
 		res.Verdict = fw.Skip
@@ -359,6 +369,15 @@ func check(raw json.RawMessage) fw.Result {
 			!chk("generator", R.Meta["SetCreator"], []string{f.Generator}) || !chk("authors", R.Meta["SetAuthors"], f.Authors) || !chk("keywords", R.Meta["SetKeywords"], f.Keywords) {
 			return res
 		}
+		if f.Created != "" { // (older replay files carry no dates)
+			if !chk("creation date", R.Meta["SetDateCreation"], []string{f.Created}) || !chk("modification date", R.Meta["SetDateModification"], []string{f.Modified}) {
+				return res
+			}
+			res.Count("dates_checked", 1)
+			if f.Created != f.Modified {
+				res.Count("dates_differ", 1)
+			}
+		}
 		// headings
 		var labels []string
 		for _, b := range bms {
@@ -492,6 +511,23 @@ func genStruct(r *rand.Rand) input {
 			}
 		}
 	}
+	// dcterms dates (W3C NOTE-datetime); the first element of each name wins
+	f.Created, f.Modified = zeroDate, zeroDate
+	for _, which := range []string{"created", "modified"} {
+		if r.Intn(2) == 0 {
+			continue
+		}
+		d := gen.Pick(r, w3cDates)
+		head.WriteString(`<meta name="dcterms.` + which + `" content="` + d[0] + `">`)
+		if r.Intn(4) == 0 {
+			head.WriteString(`<meta name="dcterms.` + which + `" content="1999-01-01">`)
+		}
+		if which == "created" {
+			f.Created = d[1]
+		} else {
+			f.Modified = d[1]
+		}
+	}
 	page := gen.Pick(r, []string{"@page { size: 200px 120px; margin: 10px }", "@page { size: 300px 300px; margin: 20px }", "@page { size: 150px 80px; margin: 5px }"})
 	head.WriteString("<style>" + page + " body { font: 10px/1.2 Ahem; margin: 0 } h1,h2,h3,h4,h5,h6 { font-size: 10px; margin: 2px 0 } .hid { display: none } .brk { break-before: page } p { margin: 3px 0 }</style></head><body>")
 	var body strings.Builder
@@ -549,6 +585,20 @@ func genStruct(r *rand.Rand) input {
 	}
 	doc := gen.Doc{HTML: head.String() + body.String() + "</body></html>", Zoom: gen.Pick(r, []float32{1, 0.5, 2.5})}
 	return input{Kind: "struct", Doc: doc, Facts: f}
+}
+
+const zeroDate = "0001-01-01T00:00:00Z"
+
+// source text, value expected at the backend (as the recorder formats it: RFC 3339, UTC)
+var w3cDates = [][2]string{
+	{"2011", "2011-01-01T00:00:00Z"},
+	{"2011-04", "2011-04-01T00:00:00Z"},
+	{"2011-04-05", "2011-04-05T00:00:00Z"},
+	{"2013-06-07", "2013-06-07T00:00:00Z"},
+	{"2013-06-07T12:34Z", "2013-06-07T12:34:00Z"},
+	{"2013-06-07T12:34:56Z", "2013-06-07T12:34:56Z"},
+	{"2014-12-31T23:59:59+02:00", "2014-12-31T21:59:59Z"},
+	{"2014-12-31T23:59:59-05:00", "2015-01-01T04:59:59Z"},
 }
 
 func htmlEsc(s string) string {
